@@ -283,6 +283,9 @@ def run_life(p, rich=None, stream_every=2, time_limit=None, real_limit=12.0, bur
             w0 = len(link.writes)
             t0 = sim.now
             j0 = joined[0]
+            # the spin verdict is about ONE library call: neither the harness's own observations after the previous
+            # call nor earlier calls of a long history on a large device count against this one
+            sim.ops_since_tick = 0
             req0 = dev.nreq
             log0 = len(dev.log)
             res = "ok"
